@@ -905,7 +905,7 @@ ASSUME_V = [
 
 reg("C01", ["Props.C01_core", "Props.C01_flat_partial", "Props.C20_nested_inlining_partial", "VM.traceStmts_good", "Props.C09_bound"], run_V, ASSUME_V)
 reg("C20", ["Props.C20_nested_inlining_partial", "VM.traceStmts_good", "VM.bindParamRefs_good", "Props.C01_core"], run_V, ASSUME_V)
-reg("C10", ["Props.C01_core", "Props.C01_flat_partial", "Props.C20_nested_inlining_partial"], run_V, ASSUME_V)
+reg("C10", ["Props.C10_flag_reads_full_reference", "Props.C10_execution_inactive_none", "Props.C10_active_runs", "Props.C03_exactly_once_at_done", "Props.C01_core", "Props.C01_flat_partial", "Props.C20_nested_inlining_partial"], run_V, ASSUME_V)
 
 
 # ---------------------------------------------------------------------------------------------
